@@ -5,7 +5,7 @@ aggregate nodes, one invisible aggregate target), an opaque source table and opa
 the events of each path, not over statement shapes."""
 from __future__ import annotations
 
-from ..symex import Sym, T, SList, Engine, Raise, show, contains
+from ..symex import Sym, T, SList, Engine, Raise, show, contains, early_exits
 from ..loader import AnalysisError, loc
 from ..report import RuleResult
 from .sx_exec import loop_events, aliases_of, GATE_CASES, _is_elem_of
@@ -17,11 +17,29 @@ ALLOC = Sym('ALLOCATOR')
 GROUPS = T('groups', ())
 TABLE = T('attr', (Q, 'table'))
 CTX = T('elem', (TABLE,))
-E = [Sym(f'EXPR{i}') for i in range(4)]
-TG = [Sym(f'TARGET{i}') for i in range(4)]
-NAMES = ['a', 'b', 'c', None]
-AGGS = {E[1]: [Sym('AGG1'), Sym('AGG2')], E[3]: [Sym('AGG3')]}
-ALL_AGGS = [a for v in AGGS.values() for a in v]
+
+
+class Model:
+    """The abstract query: targets, their expressions and names, and the aggregate nodes inside the aggregate targets."""
+
+    def __init__(self, kinds=('key', 'agg2', 'key', 'agg1-hidden')):
+        n = len(kinds)
+        self.E = [Sym(f'EXPR{i}') for i in range(n)]
+        self.TG = [Sym(f'TARGET{i}') for i in range(n)]
+        self.NAMES = [None if k.endswith('hidden') else 'abcdefgh'[i] for i, k in enumerate(kinds)]
+        self.AGGS = {}
+        self.KEYS = []
+        for i, k in enumerate(kinds):
+            if k.startswith('agg'):
+                self.AGGS[self.E[i]] = [Sym(f'AGG{i}_{j}') for j in range(int(k[3]))]
+            else:
+                self.KEYS.append(i)
+        self.ALL_AGGS = [a for v in self.AGGS.values() for a in v]
+        self.AGG_TARGETS = [i for i, k in enumerate(kinds) if k.startswith('agg')]
+
+
+M = Model()
+DEEP_KINDS = ('key', 'agg2', 'key', 'agg1-hidden', 'key', 'key-hidden')
 
 
 def engine(P, *, where=(False, None), group_indexes=None, having=None, having_cls=True, order_spec=None, distinct=False, limit=None):
@@ -30,7 +48,7 @@ def engine(P, *, where=(False, None), group_indexes=None, having=None, having_cl
     def model(ex):
         if not hasattr(ex, 'model'):
             ex.model = {
-                'c_targets': SList(list(TG)),
+                'c_targets': SList(list(M.TG)),
                 'group_indexes': None if group_indexes is None else SList(list(group_indexes)),
                 'order_spec': None if order_spec is None else SList([T('tuple', (i, r)) for i, r in order_spec]),
                 'iters': {},
@@ -51,16 +69,16 @@ def engine(P, *, where=(False, None), group_indexes=None, having=None, having_cl
             if attr == 'having_index':
                 return having
             return NotImplemented
-        if base in TG:
-            i = TG.index(base)
+        if base in M.TG:
+            i = M.TG.index(base)
             if attr == 'c_expr':
-                return E[i]
+                return M.E[i]
             if attr == 'name':
-                return NAMES[i]
+                return M.NAMES[i]
             if attr == 'is_aggregate':
-                return E[i] in AGGS
-        if base in E and attr == 'dtype':
-            return Sym(f'DTYPE{E.index(base)}')
+                return M.E[i] in M.AGGS
+        if base in M.E and attr == 'dtype':
+            return Sym(f'DTYPE{M.E.index(base)}')
         return NotImplemented
 
     def on_call(fname, fval, recv, args, kwargs, ex, node):
@@ -70,7 +88,7 @@ def engine(P, *, where=(False, None), group_indexes=None, having=None, having_cl
             ex.events.append(('where', args))
             return wcls
         if last == 'get_columns_and_aggregates' and len(args) == 1:
-            return T('tuple', (SList(), SList(list(AGGS.get(args[0], [])))))
+            return T('tuple', (SList(), SList(list(M.AGGS.get(args[0], [])))))
         if last == 'Allocator' and not args:
             return ALLOC
         if last == 'defaultdict' and len(args) == 1:
@@ -128,7 +146,7 @@ def engine(P, *, where=(False, None), group_indexes=None, having=None, having_cl
         return NotImplemented
 
     def oracle(term, ex):
-        if having is not None and isinstance(term, T) and term.op == 'call' and term.args[0] == show(E[having]):
+        if having is not None and isinstance(term, T) and term.op == 'call' and term.args[0] == show(M.E[having]):
             return having_cls is True
         return None
     return Engine(P, on_attr=on_attr, on_call=on_call, on_item=on_item, oracle=oracle, max_paths=512)
@@ -143,8 +161,24 @@ def _calls(events, suffix):
 
 
 # ----------------------------------------------------------------------
-def rule_aggproto(P) -> RuleResult:
-    res = RuleResult('R-AGGPROTO')
+def rule_aggproto(P, deep=False) -> RuleResult:
+    """deep: six targets (four group keys of which one invisible, two aggregate targets) and every order of the GROUP BY
+    references, also with a repeated reference."""
+    global M
+    M = Model(DEEP_KINDS) if deep else Model()
+    try:
+        return _rule_aggproto(P, deep)
+    finally:
+        M = Model()
+
+
+def rule_aggproto_deep(P):
+    return rule_aggproto(P, deep=True)
+
+
+def _rule_aggproto(P, deep) -> RuleResult:
+    import itertools
+    res = RuleResult('R-AGGPROTO-DEEP' if deep else 'R-AGGPROTO')
     res.exhaustive = True
     fi = P.func(QX, 'execute_select')
     construct = fi.fq + ':aggregate-branch'
@@ -153,9 +187,15 @@ def rule_aggproto(P) -> RuleResult:
     def fail(detail, msg):
         res.fail(construct, 'aggproto:' + detail, msg, loc(fi))
     ncases = 0
-    for gi in ([0, 2], [2, 0], [0, 0, 2]):
+    if deep:
+        perms = [list(p) for p in itertools.permutations(M.KEYS)]
+        configs = perms + [p + [p[0]] for p in perms]
+    else:
+        configs = ([0, 2], [2, 0], [0, 0, 2])
+    H = M.AGG_TARGETS[-1]
+    for gi in configs:
         for present, wcls, wdesc in GATE_CASES:
-            for having, hcls, hdesc in ((None, None, 'absent'), (3, None, 'NULL'), (3, False, 'false'), (3, True, 'true')):
+            for having, hcls, hdesc in ((None, None, 'absent'), (H, None, 'NULL'), (H, False, 'false'), (H, True, 'true')):
                 if (present or wcls) and having is not None and not (present and wcls is True):
                     continue        # HAVING cases only with a passing / absent WHERE
                 ncases += 1
@@ -183,7 +223,7 @@ def _judge_agg(p, fi, gi, where, having, fail):
         raise AnalysisError(f'{fi.fq}: the scan of the source table in the aggregate branch was not found')
     first_scan = next(i for i, e in enumerate(ev) if e[0] == 'loop-begin' and e[1] == TABLE)
     # (a) every aggregate node gets its slot once, before the scan
-    for a in ALL_AGGS:
+    for a in M.ALL_AGGS:
         al = [i for i, e in enumerate(ev) if e[0] == 'call' and e[1] == f'{a.name}.allocate']
         if len(al) != 1 or al[0] > first_scan or ev[al[0]][2] != (ALLOC,):
             fail('allocate', f'every aggregate node must be given a slot by the allocator once, before the rows are scanned; '
@@ -191,6 +231,10 @@ def _judge_agg(p, fi, gi, where, having, fail):
             return
     sev = [e for d, e in scan]
     gate_open = (not present) or wcls is True
+    if early_exits(p, TABLE):
+        fail(f'gate:{wdesc}', f'with the WHERE condition {wdesc} the scan of the source table stops at this row: later rows never '
+             f'reach the aggregates')
+        return
     updates = [e for e in sev if e[0] == 'call' and str(e[1]).endswith('.update')]
     stores = [e for e in sev if e[0] == 'group-store']
     for e in sev:
@@ -216,7 +260,7 @@ def _judge_agg(p, fi, gi, where, having, fail):
     if not cs or store != T('call', (cs[-1][1], cs[-1][2], cs[-1][3])):
         fail('initialize', 'every group needs a fresh store from the allocator (allocator.create_store() per new group)')
         return
-    for a in ALL_AGGS:
+    for a in M.ALL_AGGS:
         ini = [e for e in fac if e[0] == 'call' and e[1] == f'{a.name}.initialize']
         if len(ini) != 1 or ini[0][2] != (store,):
             fail('initialize', f'a new group store must initialise every aggregate node once with that store; {a.name}.initialize: '
@@ -226,13 +270,13 @@ def _judge_agg(p, fi, gi, where, having, fail):
     if not (isinstance(key, T) and key.op == 'tuple'):
         fail('key', f'the group key must be the tuple of the non-aggregate expressions evaluated on the current row; found `{show(key)}`')
         return
-    want_members = {T('call', (show(E[i]), (CTX,), ())) for i in set(gi)}
+    want_members = {T('call', (show(M.E[i]), (CTX,), ())) for i in set(gi)}
     if set(key.args) != want_members or len(key.args) != len(want_members):
         fail('key', f'GROUP BY targets {gi}: the group key must hold the value of every grouped target expression on the current row, '
              f'once; found `{show(key)}`')
         return
     # (d) every aggregate node is updated once with (store of this key, current row)
-    for a in ALL_AGGS:
+    for a in M.ALL_AGGS:
         up = [e for e in updates if e[1] == f'{a.name}.update']
         if len(up) != 1 or up[0][2] != (store, CTX):
             fail('update', f'every aggregate node must be updated once per selected row with (the store of the row\'s group, the row); '
@@ -246,14 +290,17 @@ def _judge_agg(p, fi, gi, where, having, fail):
             fail('order', f'groups must be output in order of first appearance: the group container is iterated through `{show(other[0][1])}`')
             return
         raise AnalysisError(f'{fi.fq}: output loop over the groups not found')
+    if early_exits(p, GROUPS):
+        fail(f'having:{hdesc}', f'with HAVING {hdesc} the output loop stops at this group: later groups are lost')
+        return
     oev = [e for d, e in out]
     gkey, gstore = T('elem', (GROUPS, (0,))), T('elem', (GROUPS, (1,)))
     fin_all = [e for e in ev if e[0] == 'call' and str(e[1]).endswith('.finalize')]
     if len(fin_all) != len([e for e in oev if e[0] == 'call' and str(e[1]).endswith('.finalize')]):
         fail('finalize', 'aggregates are finalised outside the per-group loop')
         return
-    evals = [i for i, e in enumerate(oev) if e[0] == 'call' and e[1] in (show(E[1]), show(E[3]))]
-    for a in ALL_AGGS:
+    evals = [i for i, e in enumerate(oev) if e[0] == 'call' and e[1] in [show(M.E[i]) for i in M.AGG_TARGETS]]
+    for a in M.ALL_AGGS:
         fn = [i for i, e in enumerate(oev) if e[0] == 'call' and e[1] == f'{a.name}.finalize']
         if len(fn) != 1 or oev[fn[0]][2] != (gstore,):
             fail('finalize', f'every aggregate node must be finalised once per group from that group\'s store; {a.name}.finalize: '
@@ -263,7 +310,7 @@ def _judge_agg(p, fi, gi, where, having, fail):
             fail('finalize', 'target expressions are evaluated before the aggregates of the group are finalised')
             return
     # (f) one output row per group, gated by HAVING; (g) key values land in the columns of their targets
-    prods = [e for e in oev if e[0] == 'produce' and isinstance(e[2], SList) and len(e[2].items) == len(TG)]
+    prods = [e for e in oev if e[0] == 'produce' and isinstance(e[2], SList) and len(e[2].items) == len(M.TG)]
     want_row = hidx is None or hcls is True
     if (len(prods) == 1) != want_row or len(prods) > 1:
         fail(f'having:{hdesc}', f'with HAVING {hdesc} the group row is {"kept" if prods else "dropped"} ({len(prods)} rows), expected '
@@ -272,9 +319,9 @@ def _judge_agg(p, fi, gi, where, having, fail):
     if not prods:
         return
     row = prods[0][2].items
-    for i in range(len(TG)):
+    for i in range(len(M.TG)):
         if i in gi:
-            want_j = key.args.index(T('call', (show(E[i]), (CTX,), ())))
+            want_j = key.args.index(T('call', (show(M.E[i]), (CTX,), ())))
             if row[i] != T('item', (gkey, want_j)):
                 fail('key-layout', f'GROUP BY targets {gi}: column {i} of the output row must be the value of target {i} from the group key '
                      f'(item {want_j} of the key as it was built); it is `{show(row[i])}`: key values land in the wrong columns when a '
@@ -282,7 +329,7 @@ def _judge_agg(p, fi, gi, where, having, fail):
                 return
         else:
             v = row[i]
-            if not (isinstance(v, T) and v.op == 'call' and v.args[0] == show(E[i]) and len(v.args[1]) == 1):
+            if not (isinstance(v, T) and v.op == 'call' and v.args[0] == show(M.E[i]) and len(v.args[1]) == 1):
                 fail('values', f'column {i} of the output row must be the value of the aggregate target expression {i}; it is `{show(v)}`')
                 return
 
@@ -305,7 +352,7 @@ def rule_pipeline(P) -> RuleResult:
     LIM = Sym('LIMIT')
     n0 = len(res.findings)
     ncases = 0
-    visible = [i for i, n in enumerate(NAMES) if n is not None]
+    visible = [i for i, n in enumerate(M.NAMES) if n is not None]
     for distinct in (False, True):
         for limit in (None, 0, LIM):
             for spec in (None, [(1, False)]):
@@ -319,7 +366,7 @@ def rule_pipeline(P) -> RuleResult:
                     cols, rows = p.value.args
                     label = f'DISTINCT {"on" if distinct else "off"}, LIMIT {"absent" if limit is None else show(limit)}, ORDER BY {"present" if spec else "absent"}'
                     # columns: the visible targets, in order, with the type of their expression
-                    want_cols = T('tuple', tuple(T('call', ('Column', (NAMES[i], Sym(f'DTYPE{i}')), ())) for i in visible))
+                    want_cols = T('tuple', tuple(T('call', ('Column', (M.NAMES[i], Sym(f'DTYPE{i}')), ())) for i in visible))
                     if cols != want_cols:
                         res.fail(construct, 'columns', f'the result columns must describe the visible targets in order (name, type of the '
                                  f'expression); got `{show(cols)[:140]}`', loc(fi))
@@ -387,13 +434,22 @@ def rule_pipeline(P) -> RuleResult:
     return res
 
 
-def rule_sortskel(P) -> RuleResult:
-    res = RuleResult('R-SORTSKEL')
+def rule_sortskel_deep(P):
+    return rule_sortskel(P, deep=True)
+
+
+def rule_sortskel(P, deep=False) -> RuleResult:
+    """deep: every ORDER BY list of up to three keys over the four targets, in every combination of directions."""
+    import itertools
+    res = RuleResult('R-SORTSKEL-DEEP' if deep else 'R-SORTSKEL')
     res.exhaustive = True
     fi = P.func(QX, 'execute_select')
     construct = fi.fq + ':order-by'
     n0 = len(res.findings)
     specs = ([(0, True)], [(2, False), (1, False)], [(1, False), (0, True), (2, True)], [(3, True), (0, False), (1, True), (2, False)])
+    if deep:
+        specs = [list(zip(idx, dirs)) for k in (1, 2, 3) for idx in itertools.product(range(4), repeat=k)
+                 for dirs in itertools.product((False, True), repeat=k)]
     for spec in specs:
         nf = len(res.findings)
         for p in _paths(P, fi, order_spec=spec):
@@ -432,6 +488,8 @@ def rule_sortskel(P) -> RuleResult:
                          f'{priority}: keys must apply with the first ORDER BY key most significant, each in its own direction', loc(fi))
         if len(res.findings) == nf:
             res.ok({'order_spec': str(spec), 'passes_equal_spec': True})
+        elif deep and len(res.findings) > 5:
+            break
     if len(res.findings) == n0:
         res.ok({'function': fi.fq, 'order_specs': [str(s) for s in specs], 'criterion': 'stable passes, last pass most significant, equal the ORDER BY list',
                 'key_function': 'nullitemgetter'})
